@@ -105,13 +105,19 @@ func (r *fakeReader) HandleShipPayloadMessage(m []byte) {
 
 type fakeInfo struct{ s *scenEnv }
 
-func (i *fakeInfo) IsRemoteServiceForSKIPaired(string) bool { i.s.add("OPairedQ"); return i.s.paired }
-func (i *fakeInfo) IsAutoAcceptEnabled() bool               { i.s.add("OAutoQ"); return i.s.auto }
+func (i *fakeInfo) IsRemoteServiceForSKIPaired(string) bool {
+	i.s.add("OPairedQ " + vh.B(i.s.paired))
+	return i.s.paired
+}
+func (i *fakeInfo) IsAutoAcceptEnabled() bool { i.s.add("OAutoQ " + vh.B(i.s.auto)); return i.s.auto }
 func (i *fakeInfo) HandleConnectionClosed(c api.ShipConnectionInterface, completed bool) {
 	i.s.add("OClosedCb " + vh.B(completed))
 }
 func (i *fakeInfo) ReportServiceShipID(ski string, id string) { i.s.add("OShipId " + vh.HxS(id)) }
-func (i *fakeInfo) AllowWaitingForTrust(string) bool          { i.s.add("OAllowQ"); return i.s.allow }
+func (i *fakeInfo) AllowWaitingForTrust(string) bool {
+	i.s.add("OAllowQ " + vh.B(i.s.allow))
+	return i.s.allow
+}
 func (i *fakeInfo) HandleShipHandshakeStateUpdate(ski string, st model.ShipState) {
 	i.s.add(fmt.Sprintf("OReport %d %s", st.State, vh.B(st.Error != nil)))
 }
@@ -161,7 +167,7 @@ func dangerous(v viewInfo) bool {
 	return false
 }
 
-func genEvent(r *vh.Rng, st int, started bool, storedID string, payCounter *int, coop bool, slowLeft *int) []*event {
+func genEvent(r *vh.Rng, st int, started bool, storedID string, payCounter *int, coop bool, slowLeft *int, wclosed bool, readerSet bool) []*event {
 	e := &event{wf: -1, paired: r.Chance(30), auto: r.Chance(12), allow: r.Chance(70)}
 	if coop {
 		e.allow = r.Chance(95)
@@ -169,7 +175,7 @@ func genEvent(r *vh.Rng, st int, started bool, storedID string, payCounter *int,
 		e.wf = r.Intn(6)
 	}
 	if !started {
-		if r.Chance(92) {
+		if r.Chance(92) || wclosed {
 			e.kind, e.coqEv = "run", "ERun"
 			return []*event{e}
 		}
@@ -197,6 +203,14 @@ func genEvent(r *vh.Rng, st int, started bool, storedID string, payCounter *int,
 	p := r.Intn(100)
 	if coop && p >= 52 && r.Chance(80) {
 		p = r.Intn(52)
+	}
+	// environment assumptions (see coq/theories/ConnEvents.v): the websocket layer delivers
+	// nothing once the transport is closed; SPINE writes need the writer handed out at setup
+	if wclosed && (p < 70 || p >= 97) {
+		p = 70 + r.Intn(27)
+	}
+	if !readerSet && p >= 89 && p < 93 {
+		p = 70 + r.Intn(19)
 	}
 	if p >= 93 && p < 97 && *slowLeft < 1 {
 		p = 0
@@ -329,6 +343,11 @@ func perform(c *ship.ShipConnection, env *scenEnv, e *event) (outcome string) {
 	case "timeout":
 		c.VerifFireTimeout()
 	case "connerr":
+		// the websocket layer sets its closed flag before it reports
+		env.mu.Lock()
+		env.closed = true
+		env.left = -1
+		env.mu.Unlock()
 		c.ReportConnectionError(errors.New("transport error"))
 	case "wclosed":
 		env.mu.Lock()
@@ -386,7 +405,10 @@ func runScenario(r *vh.Rng, maxLen int) *scenario {
 	fastSince := time.Now()
 	for len(sc.events) < length {
 		snap := conn.VerifSnapshot()
-		evs := genEvent(r, int(snap.State), started, snap.RemoteShipID, &pay, coop, &slowLeft)
+		env.mu.Lock()
+		wclosed := env.closed
+		env.mu.Unlock()
+		evs := genEvent(r, int(snap.State), started, snap.RemoteShipID, &pay, coop, &slowLeft, wclosed, snap.ReaderSet)
 		for k := 0; k < len(evs); k++ {
 			e := evs[k]
 			before := conn.VerifSnapshot()
